@@ -395,6 +395,19 @@ func Trunc(a *Term, w int) *Term {
 	if (a.op == "zext" || a.op == "sext") && a.args[0].w > w {
 		return Trunc(a.args[0], w)
 	}
+	if (a.op == "zext" || a.op == "sext") && a.args[0].w < w {
+		if a.op == "zext" {
+			return Zext(a.args[0], w)
+		}
+		return Sext(a.args[0], w)
+	}
+	// the low bits of a sum/difference/product depend only on the low bits of the operands
+	switch a.op {
+	case "bvadd", "bvsub", "bvmul":
+		return Bin(a.op, Trunc(a.args[0], w), Trunc(a.args[1], w))
+	case "trunc":
+		return Trunc(a.args[0], w)
+	}
 	return mk("trunc", w, 0, "", a)
 }
 func Ite(c, a, b *Term) *Term {
@@ -533,4 +546,22 @@ func mask64(w int) uint64 {
 		return 1
 	}
 	return mask(w)
+}
+
+// short: compact rendering for diagnostics.
+func (t *Term) short(depth int) string {
+	switch t.op {
+	case "c":
+		return fmt.Sprintf("%d", t.sval())
+	case "v":
+		return t.name
+	}
+	if depth <= 0 {
+		return "(" + t.op + " ..)"
+	}
+	parts := []string{t.op}
+	for _, a := range t.args {
+		parts = append(parts, a.short(depth-1))
+	}
+	return "(" + strings.Join(parts, " ") + ")"
 }
